@@ -64,10 +64,61 @@ TABLE = {
         'organize and the todo loop, with the all-targets marker for analyses and the known targets otherwise',
         'concrete persisted version lists; completeness of db.targets(); what organize/next_job_batch do afterwards (C01-C04)',
     ),
+    'C05': (
+        'oracle-driven abstract interpretation of outcome routing (translate / worker replies / Hand._res) + recursive-sweep path analysis of purge + effect (frame) analysis over the call graph + must-reach of the history append',
+        'Hand._translate maps None/truthy/falsy to invalid/success/failure and both workers reply True / None / False for normal / NoValid*Error / other '
+        'exceptions; schedule.update is reached only on success and schedule.purge on every non-success path with the looked-up job and the reply target; '
+        'purge hands every child on (no early exit, only the self edge filtered) and withdraws the target from todo on every path; the only effects of '
+        'purge/complete/the non-success branch are removals of that target on the visited node, pruning of idle nodes and the history append; complete '
+        'reaches chronicle.append once on every exit with the translated status name',
+        'cycles longer than a self edge; implicit exceptions inside complete/chronicle.append; what a failed all-targets run means for dependent tasks',
+    ),
+    'C12': (
+        'exhaustive finite-domain evaluation of Priority.max + per-member abstract run of the crossroads + slot typestate and dominance (Flow) in the done() callbacks + state.dot edge reading',
+        'Priority.max equals the maximum of NOW > CREW > DOING > TODO on all 155 tuples of length <= 3 over {None, members}; set_submit_info folds with max; '
+        'each priority reaches exactly its waiter under the activity test; each waiter starts its own poller whose loop reads its own condition source and '
+        'wait event, arms its own event and cancels every weaker one; done() fires update_trigger only under its own waiting test; the poller slot is '
+        'acquired only when None and released on every path and before the trigger; updating->loading runs reset which cancels all waits and forgets the '
+        'priority; gitting_trigger in both submit.Process.step_1 is dominated by is_pipeline_active()',
+        'the instant-of-firing condition over live farm/schedule state; races between the dispatch tick and the pollers; errback path of the poller deferred',
+    ),
+    'C14': (
+        'symbolic one-iteration execution of each reassembly loop from every header/body state + handshake phase walk + typestate of the receiver restoration + format-literal agreement + blocking-receive loop shape',
+        'for farm.Hand, shelve.comms.Worker, logger.LogSink and security.TwistedWrapper.process: received data only extends the buffer, every slice is '
+        'dominated by needed <= len(buffer), exactly the needed bytes leave the front once per iteration, header/body states alternate, the function '
+        'returns only with needed > len(buffer) (or after loseConnection), only the receiver and constructor write stream state; the handshake restores '
+        'and feeds the application receiver only with a verified signature AND the echoed challenge, every false phase reaches loseConnection, the '
+        'wrapper is installed exactly when TLS is off; every struct format is a big-endian 4-byte literal; every socket recv accumulates to its target',
+        'PGP verification; Twisted after loseConnection; exceptions escaping a handler mid-iteration; order of restore vs delivery inside _p5',
+    ),
+    'C16': (
+        'symbolic interpretation of compliant._walk with provenance environments (definite assignment per factory-kind iteration) + oracle-driven verdict flow of _verify + value-carry analysis through main/verify/submit + gate typestate of automatic',
+        'every local used in a factory-kind branch of _walk is bound in that iteration and each kind applies its hooks to its own product/routines/'
+        'references/state vectors/values; all rule_* functions are enumerated and any falsy or raising rule forces a False verdict; main returns it, the '
+        'process exit status is 0 exactly for True, verify returns what spawn returns, auto_merge_compliant returns FAILED exactly when verify is falsy, '
+        'and automatic touches the operational branch only after the gate passed',
+        'that each rule_NN decides correctly for every generated package; that every accepted package can be scheduled; the asynchronous spawn used by the web submit path',
+    ),
+    'C17': (
+        'type-flow over the int|Range alternatives of the scrubbed run ids + linear-form page-bound analysis + table/key-order agreement + finite small-model evaluation of Range.__contains__, the merge step and index absorption over all end-point orderings',
+        'both backends discriminate int and Range on every path and never test a Range by set membership, one run-id expression contributes one (OR) '
+        'term; a page is [index : index+limit] (LIMIT/OFFSET in SQL) and total counts the unsliced matches; _align, _table_index, _SQL_TABLE and the '
+        'key tuple of __to_key agree with Params._fields; results are sorted sets of key[:5]; one merge step of _scrub and the index-absorption test '
+        'preserve the denoted set for every ordering of the end points including open ends',
+        'agreement with concrete database contents; SQL semantics inside PostgreSQL; the textual parsing in _divide; the meaning of the -1 sentinel',
+    ),
+    'C18': (
+        'call-count flow (exactly-once) + file-handle typestate of the read-modify-write + abstract path-shape evaluation of writer and reader + path-sensitive window-provenance flow over find + parameter taint per registered handler + loop-guard/walk invariant',
+        'complete reaches chronicle.append exactly once with the translated status and the keys the readers use; append writes the list read from the '
+        'same path plus the entry once (never reads after truncating); writer and reader agree on chronicles/Y/MM/DD/<run>.json; the bounds handed to '
+        '_load are loop-invariant and are the caller\'s after/before; every declared window parameter of the history endpoints reaches find; per-day '
+        'lists are sorted newest first, days walked backwards one calendar day (or a provably absent month/year) at a time, truncated to the newest',
+        'durability of the in-place JSON rewrite; time zones of the bounds; the after+limit oldest mode',
+    ),
 }
 
 # properties whose module is finished, reviewed and clean on the tree
-READY = ['C01', 'C03', 'C04', 'C13', 'C15', 'C19']
+READY = ['C01', 'C03', 'C04', 'C05', 'C12', 'C13', 'C14', 'C15', 'C16', 'C17', 'C18', 'C19']
 CLAIMED = sorted(k for k in READY if k in TABLE and os.path.exists(os.path.join(HERE, 'sa', 'rules', k.lower() + '.py')))
 
 PENDING_REASON = (
